@@ -95,13 +95,13 @@ CHECKS = {
         "address expansion is harness code written from the AMBA specification.",
    tech="deterministic simulation, enumerated bursts x stall schedules, AMBA reference expansion, byte-memory oracle"),
  "C11": dict(cat="fault_enumeration", ref="DESIGN.md 5.C11",
-   text="Fault-centric: real wishbone.Timeout / InterconnectShared(timeout) and AXILiteTimeout / AXILiteInterconnectShared("
-        "timeout) with timeouts 1..16; a slave goes silent at a literal cycle (sweep families enumerate EVERY cycle of a short "
+   text="Fault-centric: real wishbone.Timeout / InterconnectShared(timeout), AXILiteTimeout / AXILiteInterconnectShared("
+        "timeout) and AXITimeout / AXIInterconnectShared(timeout) (AXI4 full, single-beat transfers) with timeouts 1..16; a slave goes silent at a literal cycle (sweep families enumerate EVERY cycle of a short "
         "scenario for several t), unmapped addresses, answers in the very expiry cycle; forced terminations must carry the "
         "error value, come not before t and within a bound, emit one error pulse, leave in-time answers intact (reference "
         "data) and every master must finish afterwards. WaitTimer checked cycle-exactly. Enumeration of fault instants on "
         "fixed scenarios, sampling elsewhere.",
-   note="Known findings: crossbars ignore timeout_cycles (C11-F1/F1b), accepted-but-unanswered AXI requests never time out "
+   note="Known findings: crossbars ignore timeout_cycles (C11-F1/F1b/F1c), accepted-but-unanswered AXI requests never time out "
         "(C11-F2). Slaves answering later than the timeout are outside the property's fault model (only the expiry cycle).",
    tech="deterministic simulation with slave-silence fault injection enumerated over every cycle, bounded-termination oracle"),
  "C12": dict(cat="exploration", ref="DESIGN.md 5.C12",
